@@ -265,8 +265,16 @@ def run(ctx):
     docs = fixtures.readable_fixtures(ctx.workers) + [fixtures.TEMPLATE]
     gen = gendocs.save_generated(ctx.scratch, 5 if q else 16, ctx.seed + 60, kinds=["plain", "multi", "styles", "formats", "all"] if q else None)
     docs += gen
+    # a bulky document: its string list is far longer than 64 KiB even when compressed, so that re-chunkings produce long chunks
+    bulky = os.path.join(ctx.scratch, "gen-bulky.numbers")
+    bdoc = Document(num_rows=2500, num_cols=2, num_header_rows=0, num_header_cols=0)
+    btb = bdoc.sheets[0].tables[0]
+    for r in range(2500):
+        btb.write(r, 0, "%032x" % rng.getrandbits(128))
+        btb.write(r, 1, r * 0.5)
+    bdoc.save(bulky)
     singles = rewrite.REWRITES
-    jobs = []
+    jobs = [(900000, bulky, ["one-chunk"], ctx.seed * 13 + 1, ctx.scratch), (900001, bulky, ["rechunk"], ctx.seed * 13 + 2, ctx.scratch)]
     k = 0
     for p in docs:
         todo = [[w] for w in singles]
